@@ -5,6 +5,7 @@ pub(crate) mod kani_verif {
     use crate::constants::ILEN;
     use crate::hasher::sha256::Sha256_128;
     use crate::kani_support::*;
+    use crate::constants::MAX_LMOTS_SIGNATURE_LENGTH;
     use crate::lm_ots::parameters::LmotsParameter;
     use crate::lms::helper::kani_verif::stub_ots_private;
     use crate::Seed;
@@ -80,6 +81,15 @@ pub(crate) mod kani_verif {
         s.hash_iterations = kani::any();
         s
     }
+    /// LmotsSignature::to_binary_representation is checked against the RFC layout in c07_ots_sign_*; LmsSignature's
+    /// serialiser only concatenates its result, so here it is abstracted by a short fixed encoding (type code and the first
+    /// 8 randomizer bytes) - the statement proved about the concatenation is parametric in the encoder
+    pub fn stub_ots_to_bytes<H: HashChain>(this: &LmotsSignature<H>) -> ArrayVec<[u8; MAX_LMOTS_SIGNATURE_LENGTH]> {
+        let mut r = ArrayVec::new();
+        r.extend_from_slice(&this.lmots_parameter.get_type_id().to_be_bytes());
+        r.extend_from_slice(&this.signature_randomizer.as_slice()[..8]);
+        r
+    }
     fn ots_arg(i: usize) -> u8 {
         OTS_SIGN_ARG[i].load(Ordering::Relaxed)
     }
@@ -154,6 +164,7 @@ pub(crate) mod kani_verif {
             #[kani::stub(crate::lm_ots::keygen::generate_private_key, stub_ots_private)]
             #[kani::stub(crate::lms::helper::get_tree_element, stub_tree_element)]
             #[kani::stub(crate::lm_ots::signing::LmotsSignature::sign, stub_ots_sign)]
+            #[kani::stub(crate::lm_ots::signing::LmotsSignature::to_binary_representation, stub_ots_to_bytes)]
             #[kani::unwind(40)]
             fn $name() {
                 check_lms_sign($code);
